@@ -16,7 +16,7 @@ func init() {
 	Registry["C05"] = func(replay string) int { return runLedgerCheck("C05", replay) }
 }
 
-var ledgerKinds = []TxKind{KTransfer, KCreateOK, KSstore, KSclear, KLogRevert, KOutOfGas, KSuicide, KSuicide2, KIntrinsicLow, KValueTooHigh, KBurn, KInvalid, KCreateFail}
+var ledgerKinds = []TxKind{KTransfer, KCreateOK, KSstore, KSclear, KLogRevert, KOutOfGas, KSuicide, KSuicide2, KIntrinsicLow, KValueTooHigh, KBurn, KInvalid, KCreateFail, KErc20Burn, KErc20Transfer, KCreateValueHigh}
 var ledgerFees = []FeeKind{FLegacyB, FLegacy2B, FDynTip0, FDynTip1Cap}
 
 // pilotGas measures the gas used by each kind with its default limit (single-tx block, 40M world).
@@ -156,6 +156,9 @@ func c04Oracle(c ledgerCase, blocks []*blockObs) []ev.Finding {
 			if t.Class == "committed-ok" && t.Spec.Kind == KSuicide2 && alive[AddrSuicide2.Hex()] {
 				destroyed["utwo"].Add(destroyed["utwo"], big.NewInt(7))
 				alive[AddrSuicide2.Hex()] = false
+			}
+			if t.Class == "committed-ok" && t.Spec.Kind == KErc20Burn {
+				destroyed[ledgerDenoms[0]].Add(destroyed[ledgerDenoms[0]], big.NewInt(Erc20BurnAmount)) // an explicit burn call
 			}
 			if t.Class == "committed-ok" && t.Spec.Kind == KSuicide {
 				alive[AddrSuicide.Hex()] = false
